@@ -211,9 +211,12 @@ package octosql
 //@   loop 1 step stable: old(outputType) != nil && rel(t, t2) != 2 ==> outputType == old(outputType) && deref(outputType).TypeID == old(deref(outputType).TypeID)
 //@   loop 2 step stable: old(outputType) != nil && rel(t, t1) != 2 ==> outputType == old(outputType) && deref(outputType).TypeID == old(deref(outputType).TypeID)
 
-// TypeSum(t, NULL) admits NULL (the part of the upper-bound law that typing of strict functions relies on, C08).
+// TypeSum(t, NULL) admits NULL (the part of the upper-bound law that typing of strict functions relies on, C08), and the
+// sum of two scalar types admits both of them (the upper-bound law on the scalar fragment).
 //@ func TypeSum
 //@   ensures nullsum: validT(t1) && validT(t2) && t2.TypeID == 0 ==> t2.Is(t2) == 2 && t2.Is(result) == 2
+//@   ensures upper.left: validT(t1) && validT(t2) && t1.TypeID <= 6 && t2.TypeID <= 6 ==> t1.Is(t1) == 2 && t1.Is(result) == 2
+//@   ensures upper.right: validT(t1) && validT(t2) && t1.TypeID <= 6 && t2.TypeID <= 6 ==> t2.Is(t2) == 2 && t2.Is(result) == 2
 
 // Type.Equals is used as a black box where only "the same answer for the same types" matters (C26): teq names what it computes.
 //@ spec teq(t Type, other Type) bool
